@@ -194,18 +194,60 @@ def compose(chk, repo):
                                     if "in_pos" in o][0]
     chk.ob("R18.2", sym, "terminals are allocated before the FMMU datagrams "
            "are sized", ok, f, "append_fmmu sees the final accumulators")
-    ok = bool(find("{BaseType.NO_FMMU: 0, BaseType.FMMU_IN: in_pos, "
-                   "BaseType.FMMU_OUT: out_pos}", f)) and bool(find(
-        "{sm: offsets[base] + off + Packet.DATAGRAM_HEADER for (sm, (base, "
-        "off)) in d.items()}", f))
+    # (comprehension or explicit loops: the expressions are looked for
+    # wherever they stand)
+    def table_of(name, at):
+        ds = [st.value for st in walk_no_nested(f) if isinstance(
+            st, ast.Assign) and len(st.targets) == 1 and isinstance(
+                st.targets[0], ast.Name) and st.targets[0].id == name
+            and isinstance(st.value, ast.Dict) and st.lineno <= at.lineno]
+        return ds[-1] if ds else None
+
+    def guarded_not_nofmmu(e):
+        child = e
+        for par in parents(e):
+            if isinstance(par, ast.comprehension) or isinstance(
+                    par, (ast.DictComp, ast.ListComp, ast.SetComp,
+                          ast.GeneratorExp)):
+                gens = par.generators if not isinstance(
+                    par, ast.comprehension) else [par]
+                for g in gens:
+                    if any(match("base is not BaseType.NO_FMMU", c)
+                           is not None for c in g.ifs):
+                        return True
+            if isinstance(par, FUNC):
+                break
+            child = par
+        return has_fact(path_facts(stmt_of(e)),
+                        "base is not BaseType.NO_FMMU", True) or has_fact(
+            path_facts(stmt_of(e)), "base is BaseType.NO_FMMU", False)
+    def tbl(t, at):
+        return t if isinstance(t, ast.Dict) else table_of(t.id, at)
+    frame = [(n, b_) for n, b_ in find(
+        "$t[base] + off + Packet.DATAGRAM_HEADER", f)
+        if isinstance(b_["t"], (ast.Name, ast.Dict))]
+    ok = len(frame) == 1
+    if ok:
+        tb = tbl(frame[0][1]["t"], frame[0][0])
+        ok = tb is not None and match(
+            "{BaseType.NO_FMMU: 0, BaseType.FMMU_IN: in_pos, "
+            "BaseType.FMMU_OUT: out_pos}", tb) is not None
     chk.ob("R18.2", sym, "frame offset = datagram position + region offset "
-           "+ datagram header", ok, f, "pdo_assign")
-    ok = bool(find("{BaseType.FMMU_IN: logical_in, BaseType.FMMU_OUT: "
-                   "logical_out}", f)) and bool(find(
-        "{sm: offsets[base] + off for (sm, (base, off)) in d.items() if "
-        "base is not BaseType.NO_FMMU}", f))
+           "+ datagram header", ok, frame[0][0] if frame else f,
+           "pdo_assign")
+    inner = {id(x) for n, _ in frame for x in ast.walk(n)}
+    logical = [(n, b_) for n, b_ in find("$t[base] + off", f)
+               if isinstance(b_["t"], (ast.Name, ast.Dict))
+               and id(n) not in inner]
+    ok = len(logical) == 1
+    if ok:
+        tb = tbl(logical[0][1]["t"], logical[0][0])
+        ok = tb is not None and match(
+            "{BaseType.FMMU_IN: logical_in, BaseType.FMMU_OUT: logical_out}",
+            tb) is not None and guarded_not_nofmmu(logical[0][0])
     chk.ob("R18.2", sym, "logical address = window base + region offset, "
-           "for FMMU regions only", ok, f, "fmmu_maps")
+           "for FMMU regions only", ok, logical[0][0] if logical else f,
+           "fmmu_maps")
     af = repo.func(C + "SterilePacket.append_fmmu")
     chk.analysed(C + "SterilePacket.append_fmmu")
     ok = bool(find("self.append(ECCmd.LRD, b'\\x00' * self.fmmu_in_size, 0, "
